@@ -107,7 +107,7 @@ class Ctx:
         res = TLCResult()
         cfg = cfg or module
         workers = workers or (min(NCPU, 16))
-        xmx = xmx or ("4g" if self.quick else "16g")
+        xmx = xmx or ("4g" if self.quick else "8g")
         meta = os.path.join(d, "meta.%s.%d" % (cfg, int(time.time() * 1000) % 100000))
         cmd = ["java", "-XX:+UseParallelGC", "-Xmx" + xmx, "-Xss64m"]
         if deque:
